@@ -82,9 +82,9 @@ class Container:
                 self._backend.get_by_id(item)
                 return True
             except KeyError:
-                return False
-        else:
-            return item in self._backend
+                # not an id: it may still be a name that looks like a UUID
+                pass
+        return item in self._backend
 
     def __str__(self):
         return "[{}]".format(
@@ -218,16 +218,16 @@ class LinkContainer(Container):
         if isinstance(identifier, int):
             return super(LinkContainer, self).__getitem__(identifier)
         else:
-            if util.is_uuid(identifier):
+            if util.is_uuid(identifier) and identifier in self._backend:
                 # For LinkContainer, name is id
                 item = self._backend.get_by_name(identifier)
                 return self._inst_item(item)
-            else:
-                for grp in self._backend:
-                    if identifier == grp.get_attr("name"):
-                        return self._inst_item(grp)
+            # a name (possibly one that looks like a UUID)
+            for grp in self._backend:
+                if identifier == grp.get_attr("name"):
+                    return self._inst_item(grp)
 
-                raise KeyError("Item not found '{}'".format(identifier))
+            raise KeyError("Item not found '{}'".format(identifier))
 
     def __contains__(self, item):
         # need to redefine because of id indexing/linking
@@ -240,8 +240,8 @@ class LinkContainer(Container):
                     self._itemclass.__name__)
             )
 
-        if util.is_uuid(item):
-            return item in self._backend
+        if util.is_uuid(item) and item in self._backend:
+            return True
 
         # assume it's a name and scan through LinkContainer
         for grp in self._backend:
